@@ -4,12 +4,12 @@
 package c09
 
 import (
+	"math/bits"
 	"strconv"
 	"strings"
+	"sync"
 
 	"pgregory.net/rapid"
-
-	"verifharness/internal/rp"
 )
 
 const (
@@ -22,8 +22,40 @@ func runes(rt *rapid.T, label, alphabet string, min, max int) string {
 	return rapid.StringOfN(rapid.RuneFrom([]rune(alphabet)), min, max, -1).Draw(rt, label)
 }
 
+// rapid's integer generators deliberately favour small values and the bounds of a range;
+// the structural choices of this property (which operator, which statement, how many
+// components, "one time in n") must be uniform, so they are built from unbiased bits
+// (rapid.Bool). All bits false is the value 0, towards which rapid shrinks.
+var uniGens sync.Map // n -> *rapid.Generator[int]
+
+func uni(rt *rapid.T, label string, n int) int {
+	if n <= 1 {
+		return 0
+	}
+	g, ok := uniGens.Load(n)
+	if !ok {
+		k := bits.Len(uint(n-1)) + 5 // 5 extra bits: the modulo bias is below 1/32
+		g = rapid.Custom(func(t *rapid.T) int {
+			v := 0
+			for i := 0; i < k; i++ {
+				if rapid.Bool().Draw(t, "b") {
+					v |= 1 << i
+				}
+			}
+			return v % n
+		})
+		uniGens.Store(n, g)
+	}
+	return g.(*rapid.Generator[int]).Draw(rt, label)
+}
+
+func intRange(rt *rapid.T, label string, min, max int) int { return min + uni(rt, label, max-min+1) }
+
+func pick[T any](rt *rapid.T, label string, xs ...T) T { return xs[uni(rt, label, len(xs))] }
+
+// chance is true one time in oneIn (and false when shrunk).
 func chance(rt *rapid.T, label string, oneIn int) bool {
-	return rapid.IntRange(0, oneIn-1).Draw(rt, label) == 0
+	return uni(rt, label, oneIn) == oneIn-1
 }
 
 // gen carries the per-document bookkeeping that makes uniqueness hold by construction.
@@ -51,7 +83,7 @@ func (g *gen) name(i int) string {
 			n = "n" + n
 		}
 	} else {
-		n = rp.Pick(g.rt, "namePool", namePool...)
+		n = pick(g.rt, "namePool", namePool...)
 	}
 	for g.usedNames[n] {
 		n += strconv.Itoa(i)
@@ -62,9 +94,9 @@ func (g *gen) name(i int) string {
 
 func (g *gen) level(nonSkipOnly bool) string {
 	if nonSkipOnly {
-		return rp.Pick(g.rt, "level", "strict", "permissive", "audit")
+		return pick(g.rt, "level", "strict", "permissive", "audit")
 	}
-	return rp.Pick(g.rt, "level", "strict", "permissive", "audit", "skip")
+	return pick(g.rt, "level", "strict", "permissive", "audit", "skip")
 }
 
 // override returns 0..4 legal overrides: never integrity, skip only for revocation.
@@ -78,9 +110,9 @@ func (g *gen) override() []KV {
 			continue
 		}
 		if k == "revocation" {
-			out = append(out, KV{k, rp.Pick(g.rt, "ovAct", "enforce", "log", "skip")})
+			out = append(out, KV{k, pick(g.rt, "ovAct", "enforce", "log", "skip")})
 		} else {
-			out = append(out, KV{k, rp.Pick(g.rt, "ovAct", "enforce", "log")})
+			out = append(out, KV{k, pick(g.rt, "ovAct", "enforce", "log")})
 		}
 	}
 	if len(out) > 1 && chance(g.rt, "ovRev", 2) { // the order of map entries is immaterial; vary it anyway
@@ -90,7 +122,7 @@ func (g *gen) override() []KV {
 }
 
 func (g *gen) verifyTimestamp() string {
-	return rp.Pick(g.rt, "vt", "", "", "always", "afterCertExpiry")
+	return pick(g.rt, "vt", "", "", "always", "afterCertExpiry")
 }
 
 var storeNamePool = []string{"default", "ACME.Inc", "my-store_1", "-", "_", "a.b", "0", "x.crt", "wabbit-networks", "CA", "ca", "tsa", "a..b", "-rf"}
@@ -103,16 +135,16 @@ func (g *gen) storeName() string {
 		}
 		return n
 	}
-	return rp.Pick(g.rt, "storeNamePool", storeNamePool...)
+	return pick(g.rt, "storeNamePool", storeNamePool...)
 }
 
 func (g *gen) store() Store {
-	return Store{Text: rp.Pick(g.rt, "storeType", "ca", "ca", "signingAuthority", "tsa") + ":" + g.storeName()}
+	return Store{Text: pick(g.rt, "storeType", "ca", "ca", "signingAuthority", "tsa") + ":" + g.storeName()}
 }
 
 // stores returns 1..3 distinct valid stores.
 func (g *gen) stores() []Store {
-	n := rapid.IntRange(1, 3).Draw(g.rt, "nStores")
+	n := intRange(g.rt, "nStores", 1, 3)
 	var out []Store
 	seen := map[string]bool{}
 	for i := 0; i < n; i++ {
@@ -150,17 +182,17 @@ func toks(s string) []tok {
 func (g *gen) dnValue(suffix string) tok {
 	var t tok
 	add := func(x tok) { t.text += x.text; t.val += x.val }
-	add(rp.Pick(g.rt, "v0", plainToks...))
-	n := rapid.IntRange(0, 6).Draw(g.rt, "vLen")
+	add(pick(g.rt, "v0", plainToks...))
+	n := intRange(g.rt, "vLen", 0, 6)
 	for i := 0; i < n; i++ {
 		if chance(g.rt, "vSpecial", 4) {
-			add(rp.Pick(g.rt, "vMid", middleToks...))
+			add(pick(g.rt, "vMid", middleToks...))
 		} else {
-			add(rp.Pick(g.rt, "vPlain", plainToks...))
+			add(pick(g.rt, "vPlain", plainToks...))
 		}
 	}
 	if n > 0 {
-		add(rp.Pick(g.rt, "vN", plainToks...))
+		add(pick(g.rt, "vN", plainToks...))
 	}
 	t.text += suffix
 	t.val += suffix
@@ -226,7 +258,7 @@ func (g *gen) render(d dn) string {
 	var b strings.Builder
 	for i, r := range d.rdns {
 		if i > 0 {
-			b.WriteString(rp.Pick(g.rt, "sep", ",", ", ", ",", ",  "))
+			b.WriteString(pick(g.rt, "sep", ",", ", ", ",", ",  "))
 		}
 		b.WriteString(r.typ + "=" + r.text)
 	}
@@ -234,7 +266,7 @@ func (g *gen) render(d dn) string {
 }
 
 func (g *gen) x509Prefix() string {
-	return "x509.subject:" + rp.Pick(g.rt, "lead", "", " ", "")
+	return "x509.subject:" + pick(g.rt, "lead", "", " ", "")
 }
 
 func (g *gen) x509Ident(d dn) Ident {
@@ -250,7 +282,7 @@ func (g *gen) otherIdent() Ident {
 	if chance(g.rt, "otherGen", 2) {
 		return Ident{Text: "p" + runes(g.rt, "idPrefix", lower+digits+".", 0, 8) + ":" + runes(g.rt, "idValue", lower+upper+digits+" ./=,-", 1, 12)}
 	}
-	return Ident{Text: rp.Pick(g.rt, "otherPool", otherIdentPool...)}
+	return Ident{Text: pick(g.rt, "otherPool", otherIdentPool...)}
 }
 
 // identities returns the lone wildcard, or 0..3 non-overlapping x509.subject identities
@@ -259,8 +291,8 @@ func (g *gen) identities() []Ident {
 	if chance(g.rt, "idWildcard", 4) {
 		return []Ident{{Text: wildcard}}
 	}
-	nx := rapid.IntRange(0, 3).Draw(g.rt, "nX509")
-	no := rapid.IntRange(0, 2).Draw(g.rt, "nOther")
+	nx := intRange(g.rt, "nX509", 0, 3)
+	no := intRange(g.rt, "nOther", 0, 2)
 	if nx+no == 0 {
 		nx = 1
 	}
@@ -290,9 +322,9 @@ var domainPool = []string{"registry.acme-rockets.io", "localhost", "localhost:50
 
 func (g *gen) domain() string {
 	if !chance(g.rt, "domGen", 3) {
-		return rp.Pick(g.rt, "domPool", domainPool...)
+		return pick(g.rt, "domPool", domainPool...)
 	}
-	n := rapid.IntRange(1, 3).Draw(g.rt, "nLabels")
+	n := intRange(g.rt, "nLabels", 1, 3)
 	var labels []string
 	for i := 0; i < n; i++ {
 		l := runes(g.rt, "lab0", lower+upper+digits, 1, 1)
@@ -310,9 +342,9 @@ func (g *gen) domain() string {
 
 func (g *gen) repoComponent() string {
 	c := runes(g.rt, "rc0", lower+digits, 1, 5)
-	n := rapid.IntRange(0, 2).Draw(g.rt, "rcParts")
+	n := intRange(g.rt, "rcParts", 0, 2)
 	for i := 0; i < n; i++ {
-		c += rp.Pick(g.rt, "rcSep", ".", "_", "__", "-", "--", "---") + runes(g.rt, "rcN", lower+digits, 1, 4)
+		c += pick(g.rt, "rcSep", ".", "_", "__", "-", "--", "---") + runes(g.rt, "rcN", lower+digits, 1, 4)
 	}
 	return c
 }
@@ -323,10 +355,10 @@ func (g *gen) repoComponent() string {
 func (g *gen) scope() Scope {
 	var s string
 	if len(g.scopeList) > 0 && chance(g.rt, "scopeExtend", 5) {
-		s = rp.Pick(g.rt, "scopeBase", g.scopeList...) + "/" + g.repoComponent()
+		s = pick(g.rt, "scopeBase", g.scopeList...) + "/" + g.repoComponent()
 	} else {
 		s = g.domain()
-		n := rapid.IntRange(1, 3).Draw(g.rt, "nComp")
+		n := intRange(g.rt, "nComp", 1, 3)
 		for i := 0; i < n; i++ {
 			s += "/" + g.repoComponent()
 		}
@@ -340,7 +372,7 @@ func (g *gen) scope() Scope {
 }
 
 func (g *gen) scopes() []Scope {
-	n := rapid.IntRange(1, 3).Draw(g.rt, "nScopes")
+	n := intRange(g.rt, "nScopes", 1, 3)
 	var out []Scope
 	for i := 0; i < n; i++ {
 		out = append(out, g.scope())
@@ -370,7 +402,7 @@ func (a need) max(b need) need {
 // at least the statements nd asks for.
 func (g *gen) validDoc(kind string, nd need) *Doc {
 	rt := g.rt
-	n := rapid.IntRange(1, 4).Draw(rt, "nStmts")
+	n := intRange(rt, "nStmts", 1, 4)
 	if n < nd.stmts {
 		n = nd.stmts
 	}
@@ -394,7 +426,7 @@ func (g *gen) validDoc(kind string, nd need) *Doc {
 	d := &Doc{Kind: kind, Version: "1.0"}
 	wild := -1
 	if kind == "oci" && chance(rt, "wildScope", 3) {
-		wild = rapid.IntRange(0, n-1).Draw(rt, "wildScopeAt")
+		wild = intRange(rt, "wildScopeAt", 0, n-1)
 	}
 	var nonskip []int
 	for i, l := range levels {
@@ -415,12 +447,12 @@ func (g *gen) validDoc(kind string, nd need) *Doc {
 		d.Stmts = append(d.Stmts, s)
 	}
 	if kind == "blob" && len(nonskip) > 0 && chance(rt, "global", 2) {
-		d.Stmts[rp.Pick(rt, "globalAt", nonskip...)].Global = true
+		d.Stmts[pick(rt, "globalAt", nonskip...)].Global = true
 	}
 	return d
 }
 
 func (g *gen) shape() shape {
-	return shape{EmptyNil: rapid.Bool().Draw(g.rt, "emptyNil"), EmptyJSON: rapid.IntRange(0, 2).Draw(g.rt, "emptyJSON"),
+	return shape{EmptyNil: rapid.Bool().Draw(g.rt, "emptyNil"), EmptyJSON: intRange(g.rt, "emptyJSON", 0, 2),
 		EmptyStr: rapid.Bool().Draw(g.rt, "emptyStr"), FalseBool: rapid.Bool().Draw(g.rt, "falseBool")}
 }
